@@ -70,7 +70,7 @@ if rc != 0 or M is None or V is None:
 else:
     def describe(i):
         c = cells[i]
-        return {"module": "go 1.%d" % c["Module"], "flag": ("-go 1.%d" % c["Flag"]) if c["Flag"] else "-go module",
+        return {"module": ("go 1.%d" % c["Module"]) if c["Module"] else "no module (GOPATH mode)", "flag": ("-go 1.%d" % c["Flag"]) if c["Flag"] else "-go module",
                 "tag": ("//go:build go1.%d" % c["Tag"]) if c["Tag"] else "none", "impl_lang": c["Lang"], "impl_std": c["Std"]}
     def parse(val):
         # [(3%nat, [DReport 5 true; DLang]); ...]
@@ -131,7 +131,7 @@ Print CV.
                 idx = int(first.group(1)) if first else -1
                 which = cli["APIs"][idx]["Name"] + " (SA1019, deprecated since go1.%d)" % cli["APIs"][idx]["Since"] if 0 <= idx < len(cli["APIs"]) else \
                         ("time.Tick (SA1015, stdlib < go1.23)" if idx == 100 else "unexpected problem")
-                cellsrc = {"module": "go 1.%d" % c["Module"], "flag": ("-go 1.%d" % c["Flag"]) if c["Flag"] else "-go module",
+                cellsrc = {"module": ("go 1.%d" % c["Module"]) if c["Module"] else "no module (GOPATH mode)", "flag": ("-go 1.%d" % c["Flag"]) if c["Flag"] else "-go module",
                            "tag": ("//go:build go1.%d" % c["Tag"]) if c["Tag"] else "none"}
                 ck.violation("cli:%s" % which.split(" ")[0], "staticcheck CLI: %s wrongly %s for %s" % (
                     which, "reported" if (first and first.group(2) == "true") else "suppressed", cellsrc),
